@@ -33,6 +33,7 @@ ASSUMPTIONS = [
     'DES encryption itself is a Section variable in the get_master_key theorems (its conformance is property C06)',
 ]
 
+
 HDR = 'From ScaredV Require Import Model.KeySchedule.'
 
 FIPS_KEYS = {
@@ -43,10 +44,28 @@ FIPS_KEYS = {
 }
 TOTAL = {16: 44, 24: 52, 32: 60}
 DES_CLASSIC = '133457799bbcdff1'
+# the special keys of DES: weak, semi-weak (six pairs), and the keys whose 56 effective bits are all 0 / all 1 in every parity variant
+DES_WEAK = ['0101010101010101', 'fefefefefefefefe', 'e0e0e0e0f1f1f1f1', '1f1f1f1f0e0e0e0e']
+DES_SEMI_WEAK = ['01fe01fe01fe01fe', 'fe01fe01fe01fe01', '1fe01fe00ef10ef1', 'e01fe01ff10ef10e', '01e001e001f101f1', 'e001e001f101f101',
+                 '1ffe1ffe0efe0efe', 'fe1ffe1ffe0efe0e', '011f011f010e010e', '1f011f010e010e01', 'e0fee0fef1fef1fe', 'fee0fee0fef1fef1']
+
+
+def parity_variants(lo, hi):
+    """the 256 keys whose bytes are lo or hi (the same effective key under every setting of the eight parity bits)"""
+    return [bytes((hi if (m >> (7 - i)) & 1 else lo) for i in range(8)).hex() for m in range(256)]
+
+
+DES_ZERO_VARIANTS = parity_variants(0x00, 0x01)
+DES_ONES_VARIANTS = parity_variants(0xfe, 0xff)
 
 
 def rand_hex(rng, nbytes):
     return bytes(rng.getrandbits(8) for _ in range(nbytes)).hex()
+
+
+def dense_hex(rng, nbytes, p=0.85):
+    """random bytes whose bits are 1 with probability p (get_master_key finds such keys among its first candidates: cheap calls)"""
+    return bytes(sum((1 << b) for b in range(8) if rng.random() < p) for _ in range(nbytes)).hex()
 
 
 def arr(hexes, single):
@@ -74,19 +93,35 @@ def expect_shape(obs):
     return C.coq_list(obs.get('shape', []), C.coq_nat)
 
 
+class CallKind(Kind):
+    """A kind whose case is ONE call of a public function: make_input builds the argument array(s) for the case (fresh arrays),
+    invoke performs the call on an array holding those bytes (the fresh one, or a view of a shared buffer in a call history)."""
+
+    def make_input(self, case):
+        raise NotImplementedError
+
+    def invoke(self, case, x, extra):
+        raise NotImplementedError
+
+    def run(self, case):
+        x, extra = self.make_input(case)
+        return self.invoke(case, x, extra)
+
+
 # ---------------------------------------------------------------------------------------------- AES key_expansion
 
-class AesExpansionKind(Kind):
+class AesExpansionKind(CallKind):
     name = 'aes_key_expansion'
+    ctor = 'HKe'
     header = HDR
     case_type = 'aes_ke_case'
     check_fn = 'aes_ke_check'
     explain_fn = 'aes_ke_expected'
-    shard = 530
+    shard = 560
     rule = ('scared.aes.key_expansion(window, col_in, col_out): window = columns col_in..col_in+Nk-1 of the schedule of a master key '
             '(checked against FIPS-197 inside Coq); ALL (col_in <= total-Nk, col_out <= total) pairs for the FIPS-197 Appendix A key '
-            'of each size, sampled pairs for random keys, 1-D keys and batches of 1..4 keys, col_out omitted, refused calls; '
-            'non-trivial = at least one column is computed (not just copied)')
+            'of each size, every col_in to both ends for the all-zero and all-0xFF keys, sampled pairs for random keys, 1-D keys and '
+            'batches of 1..4 keys, col_out omitted, refused calls; non-trivial = at least one column is computed (not just copied)')
 
     def _case(self, klen, masters, single, ci, co):
         return {'klen': klen, 'masters': masters, 'single': single, 'col_in': ci, 'col_out': co}
@@ -101,6 +136,13 @@ class AesExpansionKind(Kind):
                 for ci in range(tot - nk + 1):
                     for co in range(tot + 1):
                         yield self._case(klen, [key], True, ci, co)
+            # special keys: all-zero and all-0xFF, every col_in, to both ends of the schedule; and as a batch
+            for key in ('00' * klen, 'ff' * klen):
+                for ci in range(tot - nk + 1):
+                    yield self._case(klen, [key], True, ci, 0)
+                    yield self._case(klen, [key], True, ci, tot)
+            for _ in range(6):
+                yield self._case(klen, ['00' * klen, 'ff' * klen], False, rng.randint(0, tot - nk), rng.randint(0, tot))
             # sampled pairs, random keys, single
             nkeys, npairs = (4, 40) if tier == 'quick' else (12, 150)
             for _ in range(nkeys):
@@ -123,9 +165,9 @@ class AesExpansionKind(Kind):
         for klen in (8, 20, 28):
             yield self._case(klen, [rand_hex(rng, klen)], True, 0, 4)
 
-    def run(self, case):
+    def make_input(self, case):
         import scared
-        klen, ci, co = case['klen'], case['col_in'], case['col_out']
+        klen, ci = case['klen'], case['col_in']
         nk = klen // 4
         masters = arr(case['masters'], False)
         if klen in TOTAL:
@@ -133,9 +175,13 @@ class AesExpansionKind(Kind):
             win = np.ascontiguousarray(full[:, 4 * ci: 4 * (ci + nk)])
         else:
             win = masters
-        x = win[0] if case['single'] else win
+        return (win[0] if case['single'] else win), {'windows': rows_hex(win, klen)}
+
+    def invoke(self, case, x, extra):
+        import scared
+        ci, co = case['col_in'], case['col_out']
         before = x.copy()
-        obs = {'windows': rows_hex(win, klen)}
+        obs = dict(extra)
         try:
             r = scared.aes.key_expansion(x, col_in=ci) if co is None else scared.aes.key_expansion(x, col_in=ci, col_out=co)
         except ValueError as e:
@@ -197,15 +243,17 @@ class AesExpansionKind(Kind):
 
 # ---------------------------------------------------------------------------------------------- AES key_schedule
 
-class AesScheduleKind(Kind):
+class AesScheduleKind(CallKind):
     name = 'aes_key_schedule'
+    ctor = 'HKs'
     header = HDR
     case_type = 'aes_ks_case'
     check_fn = 'aes_ks_check'
     explain_fn = 'aes_ks_expected'
     shard = 40
-    rule = ('scared.aes.key_schedule(keys) = the round keys of FIPS-197 KeyExpansion: FIPS-197 Appendix A / C keys, random keys, '
-            '1-D keys (result (rounds, 16)) and batches of 1..5 keys (result (n, rounds, 16)); every case is non-trivial')
+    rule = ('scared.aes.key_schedule(keys) = the round keys of FIPS-197 KeyExpansion: FIPS-197 Appendix A / C keys, the all-zero and '
+            'all-0xFF keys, random keys, 1-D keys (result (rounds, 16)) and batches of 1..5 keys (result (n, rounds, 16)); '
+            'every case is non-trivial')
 
     def gen(self, rng, tier):
         for klen in (16, 24, 32):
@@ -214,14 +262,17 @@ class AesScheduleKind(Kind):
             yield {'klen': klen, 'masters': FIPS_KEYS[klen], 'single': False}
             for k in ('00' * klen, 'ff' * klen):
                 yield {'klen': klen, 'masters': [k], 'single': True}
+            yield {'klen': klen, 'masters': ['00' * klen, 'ff' * klen, '00' * klen], 'single': False}
             for _ in range(10 if tier == 'quick' else 150):
                 yield {'klen': klen, 'masters': [rand_hex(rng, klen)], 'single': True}
             for _ in range(10 if tier == 'quick' else 100):
                 yield {'klen': klen, 'masters': [rand_hex(rng, klen) for _ in range(rng.randint(1, 5))], 'single': False}
 
-    def run(self, case):
+    def make_input(self, case):
+        return arr(case['masters'], case['single']), {}
+
+    def invoke(self, case, x, extra):
         import scared
-        x = arr(case['masters'], case['single'])
         before = x.copy()
         r = scared.aes.key_schedule(x)
         nr = r.shape[-2] if r.ndim >= 2 else 0
@@ -256,37 +307,43 @@ class AesScheduleKind(Kind):
 
 # ---------------------------------------------------------------------------------------------- AES inv_key_schedule
 
-class AesInvKind(Kind):
+class AesInvKind(CallKind):
     name = 'aes_inv_key_schedule'
+    ctor = 'HInv'
     header = HDR
     case_type = 'aes_inv_case'
     check_fn = 'aes_inv_check'
     explain_fn = 'aes_inv_expected'
     shard = 40
     rule = ('scared.aes.inv_key_schedule(round key r of a master key, round_in=r) = the whole schedule of that master key, for all '
-            '11 rounds (FIPS and random AES-128 keys, 1-D and batches, round_in omitted = 10); non-trivial = round_in >= 1')
+            '11 rounds (FIPS, all-zero, all-0xFF and random AES-128 keys, 1-D and batches, round_in omitted = 10); '
+            'non-trivial = round_in >= 1')
 
     def gen(self, rng, tier):
-        keys = FIPS_KEYS[16] + [rand_hex(rng, 16) for _ in range(2 if tier == 'quick' else 20)]
+        keys = FIPS_KEYS[16] + ['00' * 16, 'ff' * 16] + [rand_hex(rng, 16) for _ in range(2 if tier == 'quick' else 20)]
         for k in keys:
             for r in range(11):
                 yield {'masters': [k], 'single': True, 'round': r}
             yield {'masters': [k], 'single': True, 'round': None}
         for r in list(range(11)) + [None] + ([rng.randint(0, 10) for _ in range(60)] if tier != 'quick' else []):
             yield {'masters': [rand_hex(rng, 16) for _ in range(rng.randint(1, 4))], 'single': False, 'round': r}
+        yield {'masters': ['00' * 16, 'ff' * 16], 'single': False, 'round': 10}
 
-    def run(self, case):
+    def make_input(self, case):
         import scared
         masters = arr(case['masters'], False)
         r = 10 if case['round'] is None else case['round']
         sched = scared.aes.key_schedule(masters)                            # (n, 11, 16) according to the code
         rks = np.ascontiguousarray(sched[:, r, :])
-        x = rks[0] if case['single'] else rks
+        return (rks[0] if case['single'] else rks), {'round_keys': rows_hex(rks, 16)}
+
+    def invoke(self, case, x, extra):
+        import scared
         before = x.copy()
         out = scared.aes.inv_key_schedule(x) if case['round'] is None else scared.aes.inv_key_schedule(x, round_in=case['round'])
         ok = out.ndim == 3 and out.shape[1:] == (11, 16)
-        return {'round_keys': rows_hex(rks, 16), 'shape': list(out.shape), 'dtype': str(out.dtype),
-                'rows': rows_hex(out, 176) if ok else [], 'input_unchanged': bool((x == before).all())}
+        return dict(extra, shape=list(out.shape), dtype=str(out.dtype), rows=rows_hex(out, 176) if ok else [],
+                    input_unchanged=bool((x == before).all()))
 
     def coq(self, case, obs):
         return ('{| iv_single := %s; iv_masters := %s; iv_round := %s; iv_round_keys := %s; iv_obs_shape := %s; iv_obs := %s |}' % (
@@ -323,28 +380,38 @@ def unit_keys():
     return [(1 << (63 - i)).to_bytes(8, 'big').hex() for i in range(64)]
 
 
-class DesScheduleKind(Kind):
+class DesScheduleKind(CallKind):
     name = 'des_key_schedule'
+    ctor = 'HDk'
     header = HDR
     case_type = 'des_ks_case'
     check_fn = 'des_ks_check'
     explain_fn = 'des_ks_expected'
-    shard = 25
+    shard = 3
     rule = ('scared.des.key_schedule(keys, interrupt_after_round) = K_1 .. K_(r+1) of FIPS 46-3 (PC-1, left shifts, PC-2): the 64 '
-            'one-bit keys and their complements (a wrong bit index in any round shows on one of them), zero / all-ones / classic key, '
-            'random keys, every interrupt_after_round 0..15 and omitted, 1-D and batches, refused round 16; '
+            'one-bit keys and their complements (a wrong bit index in any round shows on one of them), the 4 weak and 12 semi-weak keys, '
+            'the all-zero and all-one effective keys in all 256 parity variants, the classic key, random keys, every '
+            'interrupt_after_round 0..15 and omitted, 1-D and batches, refused round 16; '
             'non-trivial = a key that is neither all-zero nor all-ones')
 
     def gen(self, rng, tier):
         units = unit_keys()
         yield {'keys': units, 'single': False, 'last': None}
         yield {'keys': [(int(u, 16) ^ (2 ** 64 - 1)).to_bytes(8, 'big').hex() for u in units], 'single': False, 'last': 15}
+        # special keys
+        yield {'keys': DES_WEAK + DES_SEMI_WEAK, 'single': False, 'last': None}
+        yield {'keys': DES_ZERO_VARIANTS, 'single': False, 'last': None}
+        yield {'keys': DES_ONES_VARIANTS, 'single': False, 'last': 7}
+        for i, k in enumerate(DES_WEAK + DES_SEMI_WEAK):
+            yield {'keys': [k], 'single': True, 'last': i if tier == 'quick' else None}
         for k in ('00' * 8, 'ff' * 8, DES_CLASSIC, '0123456789abcdef'):
             yield {'keys': [k], 'single': True, 'last': None}
         for last in range(16):
             yield {'keys': [DES_CLASSIC], 'single': True, 'last': last}
             yield {'keys': [rand_hex(rng, 8)], 'single': True, 'last': last}
             yield {'keys': [rand_hex(rng, 8) for _ in range(rng.randint(1, 4))], 'single': False, 'last': last}
+            yield {'keys': [rng.choice(DES_ZERO_VARIANTS), rng.choice(DES_ONES_VARIANTS), rng.choice(DES_WEAK + DES_SEMI_WEAK)],
+                   'single': False, 'last': last}
         for _ in range(10 if tier == 'quick' else 300):
             single = rng.random() < 0.4
             yield {'keys': [rand_hex(rng, 8) for _ in range(1 if single else rng.randint(1, 6))], 'single': single,
@@ -352,9 +419,11 @@ class DesScheduleKind(Kind):
         yield {'keys': [rand_hex(rng, 8)], 'single': True, 'last': 16}
         yield {'keys': [rand_hex(rng, 8), rand_hex(rng, 8)], 'single': False, 'last': 16 + rng.randint(1, 20)}
 
-    def run(self, case):
+    def make_input(self, case):
+        return arr(case['keys'], case['single']), {}
+
+    def invoke(self, case, x, extra):
         import scared
-        x = arr(case['keys'], case['single'])
         before = x.copy()
         try:
             r = scared.des.key_schedule(x) if case['last'] is None else scared.des.key_schedule(x, interrupt_after_round=case['last'])
@@ -387,53 +456,122 @@ class DesScheduleKind(Kind):
     def tags(self, case, obs):
         return ['des_key_schedule', f'des_ks_last{case["last"]}']
 
+    def sample(self, case, obs):
+        return {'case': dict(case, keys=case['keys'][:4]), 'observed': {k: (v[:2] if isinstance(v, list) and k == 'rows' else v) for k, v in obs.items()}}
+
     def shrink(self, case):
         if len(case['keys']) > 1:
-            for i in range(len(case['keys'])):
-                yield dict(case, keys=[case['keys'][i]])
+            h = len(case['keys']) // 2
+            if h > 1:
+                yield dict(case, keys=case['keys'][:h])
+                yield dict(case, keys=case['keys'][h:])
+            else:
+                for i in range(len(case['keys'])):
+                    yield dict(case, keys=[case['keys'][i]])
 
 
 # ---------------------------------------------------------------------------------------------- DES get_master_key
 
-class DesMasterKeyKind(Kind):
+def _gmk_worker(case):
+    from lib.kinds import safe_run
+    return safe_run(DesMasterKeyKind(), case)
+
+
+class DesMasterKeyKind(CallKind):
     name = 'des_get_master_key'
+    ctor = 'HMk'
     header = HDR
     case_type = 'des_mk_case'
     check_fn = 'des_mk_check'
     explain_fn = 'des_mk_expected'
-    shard = 6
+    shard = 12
     rule = ('scared.des.get_master_key(round key r of a key (checked against FIPS 46-3 inside Coq), r, pt, E_key(pt)) = the key with '
-            'its parity bits cleared, from each of the 16 round keys of random keys (and of the classic key); with a corrupted ciphertext the '
-            'result is None; non-trivial = every case')
+            'its parity bits cleared, from each of the 16 round keys: the all-zero effective key 0101010101010101 and the all-one '
+            'effective key FEFEFEFEFEFEFEFE (16 rounds each) and their parity variants, the weak and semi-weak keys, random keys and the '
+            'classic key; with a corrupted ciphertext the result is None; non-trivial = every case.  The calls of one run are '
+            'spread over a small process pool (each call costs up to 256 DES encryptions).')
+
+    def __init__(self):
+        self._pending = None
+        self._cache = None
+
+    def _gen(self, rng, tier):
+        quick = tier == 'quick'
+
+        def one(k, r, corrupt=False):
+            return {'key': k, 'round': r, 'pt': rand_hex(rng, 8), 'corrupt': corrupt}
+        # special keys, all 16 rounds: effective key all 0 (the candidate found LAST) and all 1 (found first)
+        for r in range(16):
+            yield one('0101010101010101', r)
+            yield one('fefefefefefefefe', r)
+        for r in ((2, 7, 9, 14) if quick else range(16)):
+            yield one('0000000000000000', r)
+            yield one('ffffffffffffffff', r)
+        for _ in range(4 if quick else 32):
+            yield one(rng.choice(DES_ZERO_VARIANTS), rng.randint(0, 15))
+            yield one(rng.choice(DES_ONES_VARIANTS), rng.randint(0, 15))
+        for i, k in enumerate(DES_WEAK[2:] + DES_SEMI_WEAK):
+            for r in ([(5 * i + 3) % 16] if quick else range(16)):
+                yield one(k, r)
+        # every one of the 16 round keys of random keys (quick: one key, plus four rounds of the classic key)
+        for r in ((0, 5, 10, 15) if quick else range(16)):
+            yield one(DES_CLASSIC, r)
+        for k in [rand_hex(rng, 8) for _ in range(1 if quick else 8)]:
+            for r in range(16):
+                yield one(k, r)
+        for _ in range(1 if quick else 8):
+            yield one(rand_hex(rng, 8), rng.randint(0, 15), corrupt=True)
 
     def gen(self, rng, tier):
-        # every one of the 16 round keys of a random key (quick: one key, plus four rounds of the classic key)
-        keys = [rand_hex(rng, 8) for _ in range(1 if tier == 'quick' else 11)]
-        for r in ((0, 5, 10, 15) if tier == 'quick' else range(16)):
-            yield {'key': DES_CLASSIC, 'round': r, 'pt': rand_hex(rng, 8), 'corrupt': False}
-        for k in keys:
-            for r in range(16):
-                yield {'key': k, 'round': r, 'pt': rand_hex(rng, 8), 'corrupt': False}
-        for _ in range(1 if tier == 'quick' else 8):
-            yield {'key': rand_hex(rng, 8), 'round': rng.randint(0, 15), 'pt': rand_hex(rng, 8), 'corrupt': True}
+        cases = list(self._gen(rng, tier))
+        self._pending, self._cache = cases, None
+        return iter(cases)
+
+    @staticmethod
+    def _key(case):
+        import json
+        return json.dumps(case, sort_keys=True)
 
     def run(self, case):
+        # first call of a run: compute the generated cases in a small fork pool (same function, same arguments, other processes)
+        if self._pending:
+            pending, self._pending = self._pending, None
+            self._cache = {}
+            try:
+                import multiprocessing as mp
+                import scared  # noqa: F401  (imported before the fork)
+                with mp.get_context('fork').Pool(min(8, mp.cpu_count() or 2)) as pool:
+                    for c, o in zip(pending, pool.map(_gmk_worker, pending, chunksize=1)):
+                        self._cache[self._key(c)] = o
+            except Exception:
+                self._cache = {}
+        if self._cache:
+            o = self._cache.pop(self._key(case), None)
+            if o is not None:
+                return o
+        return CallKind.run(self, case)
+
+    def make_input(self, case):
         import scared
         key = arr([case['key']], True)
         pt = arr([case['pt']], True)
         rk = np.ascontiguousarray(scared.des.key_schedule(key)[case['round']])
-        ct = scared.des.encrypt(pt, key)
+        ct = np.asarray(scared.des.encrypt(pt, key)).reshape(8).copy()
         if case['corrupt']:
-            ct = ct.copy()
             ct[7] ^= 1
-        g = scared.des.get_master_key(rk, case['round'], pt, ct)
-        obs = {'round_key': bytes(rk.tolist()).hex(), 'ct': bytes(np.asarray(ct).reshape(-1).tolist()).hex()}
+        return np.stack([rk, pt, ct]).astype('uint8'), {'round_key': bytes(rk.tolist()).hex(), 'ct': bytes(ct.tolist()).hex()}
+
+    def invoke(self, case, x, extra):
+        import scared
+        before = x.copy()
+        g = scared.des.get_master_key(x[0], case['round'], x[1], x[2])
+        obs = dict(extra, input_unchanged=bool((x == before).all()))
         if g is None:
             obs['result'] = None
         else:
             g = np.asarray(g)
             obs['result'] = bytes(g.reshape(-1).tolist()).hex() if g.dtype == np.uint8 and g.shape == (8,) else 'ff' * 9
-            obs['reencrypts'] = bool(np.array_equal(scared.des.encrypt(pt, g), ct)) if g.shape == (8,) else False
+            obs['reencrypts'] = bool(np.array_equal(scared.des.encrypt(x[1], g), x[2])) if g.shape == (8,) else False
         return obs
 
     def coq(self, case, obs):
@@ -446,10 +584,15 @@ class DesMasterKeyKind(Kind):
             return f'des.get_master_key raised {obs["raised"]}: {obs.get("msg")}'
         if obs['result'] is not None and not obs.get('reencrypts'):
             return 'the key returned by get_master_key does not encrypt the plaintext to the given ciphertext'
+        if not obs.get('input_unchanged', True):
+            return 'des.get_master_key modified its input'
         return None
 
     def features(self, case, obs):
-        return {'round': case['round'], 'corrupt': case['corrupt']}
+        k = case['key']
+        cls = ('zero' if k in DES_ZERO_VARIANTS else 'ones' if k in DES_ONES_VARIANTS else 'weak' if k in DES_WEAK
+               else 'semi-weak' if k in DES_SEMI_WEAK else 'other')
+        return {'round': case['round'], 'corrupt': case['corrupt'], 'key': cls}
 
     def tags(self, case, obs):
         return ['des_get_master_key', f'des_mk_round{case["round"]}']
@@ -462,9 +605,10 @@ class DesCandidatesKind(Kind):
     header = HDR
     case_type = 'des_cand_case'
     check_fn = 'des_cand_check'
-    shard = 8
+    shard = 3
     rule = ('scared.des.base._find_possible_keys(round key, r) (private helper, only when it exists): the SET of 256 candidates '
-            'equals the impl-model\'s set (order not compared), 16 rounds; non-trivial = every case')
+            'equals the impl-model\'s set (order not compared), 16 rounds, classic / all-zero / all-one / random keys; '
+            'non-trivial = every case')
 
     def gen(self, rng, tier):
         try:
@@ -475,6 +619,9 @@ class DesCandidatesKind(Kind):
             return
         for k in [DES_CLASSIC] + [rand_hex(rng, 8) for _ in range(1 if tier == 'quick' else 5)]:
             for r in range(16):
+                yield {'key': k, 'round': r}
+        for k in ('0101010101010101', 'fefefefefefefefe'):
+            for r in ((1, 6, 11, 15) if tier == 'quick' else range(16)):
                 yield {'key': k, 'round': r}
 
     def run(self, case):
@@ -499,7 +646,219 @@ class DesCandidatesKind(Kind):
         return {'case': case, 'observed': {'round_key': obs.get('round_key'), 'cands': (obs.get('cands') or [])[:4] + ['...']}}
 
 
-KINDS = [AesExpansionKind(), AesScheduleKind(), AesInvKind(), DesScheduleKind(), DesMasterKeyKind(), DesCandidatesKind()]
+# ---------------------------------------------------------------------------------------------- call histories (hidden state)
+
+KE, KS, INV, DK, MK = AesExpansionKind(), AesScheduleKind(), AesInvKind(), DesScheduleKind(), DesMasterKeyKind()
+CALL_KINDS = {k.name: k for k in (KE, KS, INV, DK, MK)}
+
+
+class HistoryKind(Kind):
+    name = 'call_history'
+    header = HDR
+    case_type = 'list hist_step'
+    check_fn = 'hist_check'
+    explain_fn = 'hist_explain'
+    shard = 30
+    rule = ('histories of 2..4 calls of aes.key_schedule / key_expansion / inv_key_schedule and des.key_schedule / get_master_key whose '
+            'arguments are views of ONE buffer that is rewritten in place between the calls: the same ndarray object with another key '
+            '(one byte changed, all bytes changed, changed back), the same bytes under another shape / key size (32 bytes as one '
+            'AES-256 key, as two AES-128 keys, prefixes as AES-128 / AES-192 keys, one key as a batch of one), the same values under '
+            'another integer dtype, alternating functions, overlapping views; EVERY call is compared with the spec for the bytes the '
+            'buffer held at that call (the functions are pure); non-trivial = at least two calls')
+
+    # ---- step builders
+    @staticmethod
+    def _st(kind, case, off=0, astype=None):
+        s = {'kind': kind.name, 'case': case, 'off': off}
+        if astype:
+            s['astype'] = astype
+        return s
+
+    def _ks(self, keys, single, klen=None, **kw):
+        return self._st(KS, {'klen': klen or len(keys[0]) // 2, 'masters': keys, 'single': single}, **kw)
+
+    def _ke(self, keys, single, ci, co, **kw):
+        return self._st(KE, {'klen': len(keys[0]) // 2, 'masters': keys, 'single': single, 'col_in': ci, 'col_out': co}, **kw)
+
+    def _inv(self, keys, single, r, **kw):
+        return self._st(INV, {'masters': keys, 'single': single, 'round': r}, **kw)
+
+    def _dk(self, keys, single, last, **kw):
+        return self._st(DK, {'keys': keys, 'single': single, 'last': last}, **kw)
+
+    def _mk(self, rng, key, r, **kw):
+        return self._st(MK, {'key': key, 'round': r, 'pt': rand_hex(rng, 8), 'corrupt': False}, **kw)
+
+    @staticmethod
+    def _poke(rng, h):
+        """the same key with one byte changed (buf[i] = x)"""
+        b = bytearray(bytes.fromhex(h))
+        i = rng.randrange(len(b))
+        b[i] ^= rng.randint(1, 255)
+        return bytes(b).hex()
+
+    def gen(self, rng, tier):
+        H = lambda *steps: {'steps': list(steps)}  # noqa: E731
+        # (1) the same ndarray, another key written into it in place between the calls: A, A', A   and   A, B, A
+        for klen in (16, 24, 32):
+            nk, tot = klen // 4, TOTAL[klen]
+            for single in (True, False):
+                n = 1 if single else 2
+                A = [rand_hex(rng, klen) for _ in range(n)]
+                B = [rand_hex(rng, klen) for _ in range(n)]
+                A1 = [self._poke(rng, A[0])] + A[1:]
+                yield H(self._ks(A, single), self._ks(A1, single), self._ks(A, single))
+                yield H(self._ks(A, single), self._ks(B, single), self._ks(B, single), self._ks(A, single))
+                ci, co = rng.randint(0, tot - nk), rng.randint(0, tot)
+                yield H(self._ke(A, single, ci, co), self._ke(A1, single, ci, co), self._ke(A, single, ci, co))
+                yield H(self._ke(A, single, ci, co), self._ke(A, single, ci, rng.randint(0, tot)), self._ke(B, single, rng.randint(0, tot - nk), None))
+        for single in (True, False):
+            n = 1 if single else 2
+            A = [rand_hex(rng, 16) for _ in range(n)]
+            A1 = [self._poke(rng, A[0])] + A[1:]
+            r = rng.randint(1, 10)
+            yield H(self._inv(A, single, r), self._inv(A1, single, r), self._inv(A, single, r))
+            yield H(self._inv(A, single, r), self._inv(A, single, (r + 3) % 11), self._inv(A1, single, None))
+            D = [rand_hex(rng, 8) for _ in range(n)]
+            D1 = [self._poke(rng, D[0])] + D[1:]
+            yield H(self._dk(D, single, None), self._dk(D1, single, None), self._dk(D, single, None))
+            yield H(self._dk(D, single, 15), self._dk(D, single, 3), self._dk(D1, single, 3), self._dk(D, single, None))
+        for _ in range(2 if tier == 'quick' else 8):
+            k = dense_hex(rng, 8)
+            k1 = self._poke(rng, k)
+            r = rng.randint(0, 15)
+            yield H(self._mk(rng, k, r), self._mk(rng, k1, r), self._mk(rng, k, r))
+            yield H(self._mk(rng, k, r), self._mk(rng, k, (r + 5) % 16))
+        yield H(self._mk(rng, 'fefefefefefefefe', 4), self._mk(rng, '0101010101010101', 4), self._mk(rng, 'fefefefefefefefe', 4))
+        # (2) the same bytes under another shape / key size / dtype
+        for _ in range(2 if tier == 'quick' else 10):
+            M = rand_hex(rng, 32)
+            yield H(self._ks([M], True), self._ks([M[:32], M[32:]], False), self._ks([M[:32]], True), self._ks([M[:48]], True))
+            yield H(self._ks([M[:32], M[32:]], False), self._ks([M], False), self._ks([M], True), self._ks([M[:32]], False))
+            yield H(self._ke([M[:32]], True, 0, None), self._ke([M[:32]], False, 0, None), self._ke([M[:48]], True, 0, None),
+                    self._ke([M], True, 0, None))
+            yield H(self._ks([M[:32]], True), self._ks([M[:32]], True, astype='uint16'), self._ks([M[:32]], True, astype='int64'),
+                    self._ks([M[:32]], True))
+            D = rand_hex(rng, 16)
+            yield H(self._dk([D[:16]], True, None), self._dk([D[:16], D[16:]], False, None), self._dk([D[:16]], False, None),
+                    self._dk([D[:16]], True, None, astype='uint16'))
+            # overlapping views: the second key starts inside the first
+            yield H(self._ks([M[:32]], True), self._ks([M[16:48]], True, off=8), self._ks([M[:32]], True))
+        # (3) alternating functions on one buffer
+        for _ in range(3 if tier == 'quick' else 12):
+            A, B, D = rand_hex(rng, 16), rand_hex(rng, 16), dense_hex(rng, 8)
+            r = rng.randint(0, 10)
+            yield H(self._ks([A], True), self._inv([A], True, r), self._ke([A], True, rng.randint(0, 40), rng.randint(0, 44)), self._ks([A], True))
+            yield H(self._inv([A], True, r), self._ks([A], True), self._inv([B], True, r), self._ks([B], True))
+            yield H(self._dk([D], True, None), self._ks([A], True), self._dk([D], True, None), self._ks([B], True))
+            yield H(self._dk([D], True, None), self._mk(rng, D, rng.randint(0, 15)), self._dk([self._poke(rng, D)], True, None))
+        # (4) random histories
+        for _ in range(15 if tier == 'quick' else 250):
+            steps = []
+            pool = {}
+            for _ in range(rng.randint(2, 4)):
+                f = rng.choice(['ks', 'ks', 'ke', 'ke', 'inv', 'dk', 'dk'] + (['mk'] if rng.random() < 0.25 else []))
+                single = rng.random() < 0.5
+                n = 1 if single else rng.randint(1, 3)
+                klen = 16 if f == 'inv' else 8 if f in ('dk', 'mk') else rng.choice([16, 24, 32])
+
+                def keys():
+                    old = pool.get((klen, n))
+                    u = rng.random()
+                    if old and u < 0.35:
+                        new = old                                  # same bytes again
+                    elif old and u < 0.7:
+                        new = [self._poke(rng, old[0])] + old[1:]  # one byte changed
+                    else:
+                        new = [dense_hex(rng, klen) if f == 'mk' else rand_hex(rng, klen) for _ in range(n)]
+                    pool[(klen, n)] = new
+                    return new
+                if f == 'ks':
+                    steps.append(self._ks(keys(), single))
+                elif f == 'ke':
+                    nk, tot = klen // 4, TOTAL[klen]
+                    steps.append(self._ke(keys(), single, rng.randint(0, tot - nk), rng.choice([None, rng.randint(0, tot)])))
+                elif f == 'inv':
+                    steps.append(self._inv(keys(), single, rng.choice([None] + list(range(11)))))
+                elif f == 'dk':
+                    steps.append(self._dk(keys(), single, rng.choice([None] + list(range(16)))))
+                else:
+                    n = 1
+                    steps.append(self._mk(rng, keys()[0], rng.randint(0, 15)))
+            yield {'steps': steps}
+
+    @staticmethod
+    def _scrub():
+        """One call of every function on fixed throw-away keys before a history, so that what a history observes does not depend
+        on the calls made earlier in the process (a `last value` left by another case is overwritten): a failing history then
+        fails the same way when it is replayed alone in a fresh process."""
+        import scared
+        k = np.arange(1, 33, dtype='uint8')
+        for n in (16, 24, 32):
+            scared.aes.key_schedule(k[:n].copy())
+            scared.aes.key_expansion(k[:n].copy(), col_in=0)
+        scared.aes.inv_key_schedule(k[:16].copy(), round_in=10)
+        d = np.full(8, 0xfe, dtype='uint8')
+        rk = scared.des.key_schedule(d)
+        pt = np.arange(8, dtype='uint8')
+        scared.des.get_master_key(rk[0].copy(), 0, pt, scared.des.encrypt(pt, d))
+
+    def run(self, case):
+        self._scrub()
+        buf = np.zeros(256, dtype='uint8')
+        views = {}
+        out = []
+        for st in case['steps']:
+            kind = CALL_KINDS[st['kind']]
+            try:
+                x, extra = kind.make_input(st['case'])
+                key = (st.get('off', 0),) + tuple(x.shape)
+                if key not in views:
+                    views[key] = buf[key[0]: key[0] + x.size].reshape(x.shape)
+                v = views[key]                                  # the SAME ndarray object whenever offset and shape repeat
+                v[...] = x                                      # rewritten in place
+                arg = v.astype(st['astype']) if st.get('astype') else v
+                out.append(kind.invoke(st['case'], arg, extra))
+            except Exception as e:  # an unexpected exception of one call is the observation of that call
+                out.append({'raised': type(e).__name__, 'msg': str(e)[:160]})
+        return {'steps': out}
+
+    def _pairs(self, case, obs):
+        return [(CALL_KINDS[st['kind']], st['case'], o) for st, o in zip(case['steps'], obs.get('steps') or [{}] * len(case['steps']))]
+
+    def coq(self, case, obs):
+        return '[' + '; '.join(f'{k.ctor} ({k.coq(c, o)})' for k, c, o in self._pairs(case, obs)) + ']'
+
+    def oracle(self, case, obs):
+        if 'raised' in obs:
+            return f'history raised {obs["raised"]}: {obs.get("msg")}'
+        for i, (k, c, o) in enumerate(self._pairs(case, obs)):
+            m = k.oracle(c, o)
+            if m:
+                return f'call {i} ({k.name}): {m}'
+        return None
+
+    def nontrivial(self, case, obs):
+        return len(case['steps']) >= 2
+
+    def features(self, case, obs):
+        return {'calls': len(case['steps']), 'functions': '+'.join(sorted({s['kind'] for s in case['steps']})),
+                'astype': any('astype' in s for s in case['steps'])}
+
+    def tags(self, case, obs):
+        return ['call_history', 'hist_' + '+'.join(sorted({s['kind'] for s in case['steps']}))]
+
+    def shrink(self, case):
+        s = case['steps']
+        if len(s) > 1:
+            for i in range(len(s)):
+                yield {'steps': s[:i] + s[i + 1:]}
+
+    def sample(self, case, obs):
+        return {'case': case, 'observed': {'steps': [{k: (v[:1] if isinstance(v, list) else v) for k, v in o.items()} for o in obs.get('steps', [])]}}
+
+
+KINDS = [AesExpansionKind(), AesScheduleKind(), AesInvKind(), DesScheduleKind(), DesMasterKeyKind(), DesCandidatesKind(), HistoryKind()]
 
 
 def coverage_extra():
